@@ -303,6 +303,13 @@ class Run(object):
                 self.raised_fault += 1
             self.log.add("raised", type(exc).__name__)
             if target is not None:
+                if not fired and self.slots[target] is not None:
+                    # a documented in-place call that raised although nothing was injected (an argument check, a
+                    # precondition): the property says nothing about the receiver's VALUE then, but a live tensor train
+                    # must still be a tensor train -- order, dimensions, ranks and cores mutually consistent
+                    p = M.structural_problem(self.slots[target].tt)
+                    if p is not None:
+                        self._viol("inconsistent-target-after-raise(%s)" % api, "O2", {"problem": p, "exception": repr(exc)[:200]})
                 self._drop(target)
             return "raised"
         # O2: the in-place target
@@ -420,6 +427,8 @@ def api_name(rec):
         return "TT.concatenate"
     if name == "reconstruct":
         return "TT.__init__"
+    if name == "misuse":
+        return {"add": "TT.__add__", "matmul": "TT.__matmul__", "concatenate_list": "TT.concatenate"}.get(a.get("what"), "TT." + str(a.get("what")))
     if name in ("add", "mul", "matmul"):
         return {"add": "TT.__sub__" if a.get("sub") else "TT.__add__", "mul": "TT.__rmul__" if a.get("right") else "TT.__mul__",
                 "matmul": "TT.dot" if a.get("dot") else "TT.__matmul__"}[name]
@@ -735,6 +744,72 @@ _unary_ow("transpose", lambda t, a: t.transpose(cores=a.get("cores"), conjugate=
                                      "cores": (None if ctx.rnd.random() < 0.6 else sorted(ctx.rnd.sample(range(m[0]), ctx.rnd.randint(1, m[0]))))})
 _unary_ow("conj", lambda t, a: t.conj(overwrite=bool(a.get("overwrite"))))
 _unary_ow("rank_transpose", lambda t, a: t.rank_transpose(overwrite=bool(a.get("overwrite"))))
+
+
+@op("misuse", roles=("self", "other"), inplace=lambda rec: "self" if rec["args"].get("overwrite") else None, weight=0.8)
+def _misuse():
+    """Calls whose documented preconditions do NOT hold (mismatching dimensions / ranks): they must raise and leave every
+    operand as it was (also the receiver of an overwrite=True variant must stay a consistent tensor train)."""
+    def choose(ctx):
+        L = ctx.live()
+        if len(L) < 2:
+            return None
+        r = ctx.rnd
+        for _ in range(8):
+            a, b = r.choice(L), r.choice(L)
+            if a == b:
+                continue
+            ma, mb = ctx.meta(a), ctx.meta(b)
+            what = r.choice(("add", "matmul", "concatenate", "concatenate_list", "tensordot", "rank_tensordot"))
+            ow = r.random() < 0.5
+            if what == "add" and (ma[1] != mb[1] or ma[2] != mb[2]):
+                return {"op": "misuse", "in": {"self": a, "other": b}, "dest": [], "args": {"what": "add"}}
+            if what == "matmul" and ma[2] != mb[1]:
+                return {"op": "misuse", "in": {"self": a, "other": b}, "dest": [], "args": {"what": "matmul"}}
+            if what == "concatenate" and ma[3][-1] != mb[3][0]:
+                return {"op": "misuse", "in": {"self": a, "other": b}, "dest": [], "args": {"what": "concatenate", "overwrite": ow}}
+            if what == "concatenate_list":
+                return {"op": "misuse", "in": {"self": a, "other": b}, "dest": [],
+                        "args": {"what": "concatenate_list", "overwrite": ow, "bad": r.choice(("rank", "ndim", "chain"))}}
+            if what == "tensordot":
+                k = r.randint(1, min(ma[0], mb[0]))
+                mode = r.choice(("last-first", "last-last", "first-last", "first-first"))
+                if (a, b, mode, k) not in set(_td_candidates(ctx)):
+                    return {"op": "misuse", "in": {"self": a, "other": b}, "dest": [],
+                            "args": {"what": "tensordot", "overwrite": ow, "num_axes": k, "mode": mode}}
+            if what == "rank_tensordot":
+                return {"op": "misuse", "in": {"self": a, "other": b}, "dest": [],
+                        "args": {"what": "rank_tensordot", "overwrite": ow, "mode": r.choice(("last", "first"))}}
+        return None
+
+    def execute(run, rec, A, g):
+        a = rec["args"]
+        t, o = A["self"], A["other"]
+        w = a["what"]
+        ow = bool(a.get("overwrite"))
+        if w == "add":
+            _need(t.row_dims != o.row_dims or t.col_dims != o.col_dims)
+            return t + o
+        if w == "matmul":
+            _need(t.col_dims != o.row_dims)
+            return t @ o
+        if w == "concatenate":
+            _need(t.ranks[-1] != o.ranks[0])
+            return t.concatenate(o, overwrite=ow)
+        if w == "concatenate_list":
+            r = t.ranks[-1]
+            if a["bad"] == "rank":
+                cores = [g.standard_normal((r + 1, 2, 1, 1))]
+            elif a["bad"] == "ndim":
+                cores = [g.standard_normal((r, 2, 1, 2)), g.standard_normal((2, 2, 1))]
+            else:
+                cores = [g.standard_normal((r, 2, 1, 2)), g.standard_normal((3, 2, 1, 1))]
+            return t.concatenate(cores, overwrite=ow)
+        if w == "tensordot":
+            return t.tensordot(o, a["num_axes"], mode=a["mode"], overwrite=ow)
+        mat = g.standard_normal((t.ranks[-1] + 1, 2)) if a["mode"] == "last" else g.standard_normal((2, t.ranks[0] + 1))
+        return t.rank_tensordot(mat, mode=a["mode"], overwrite=ow)
+    return choose, execute
 
 
 @op("copy", roles=("self",))
@@ -1427,7 +1502,7 @@ def _dd_arr():
         m_ = ctx.meta(v)
         d = r.randint(1, 3)
         a = {"d": d, "m": r.randint(2, 6), "k": r.randint(1, 2), "basis": _rand_basis(r, d, m_[0], list(m_[1])),
-             "repeats": r.randint(1, 2), "rcond": r.choice((1e-2, 1e-8)), "progress": r.random() < 0.3}
+             "repeats": r.choice((0, 1, 1, 2)), "rcond": r.choice((1e-2, 1e-8)), "progress": r.random() < 0.3}
         return {"op": "dd_arr", "in": {"initial_guess": v}, "dest": ctx.dest(a["k"]), "args": a}
 
     def execute(run, rec, A, g):
